@@ -336,6 +336,7 @@ func registerVerifrt() {
 	ext(p+"MapOrder", func(fr *frame, a []value) value { mapOrderMode = int(asInt64(a[0])); return nil })
 	ext(p+"Preemptions", func(fr *frame, a []value) value { S.preempt = int(asInt64(a[0])); return nil })
 	ext(p+"TickLimit", func(fr *frame, a []value) value { S.tickLimit = int(asInt64(a[0])); return nil })
+	ext(p+"SchedDeterministic", func(fr *frame, a []value) value { S.deterministic = a[0].(bool); return nil })
 	ext(p+"TimersNondet", func(fr *frame, a []value) value { S.timersNondet = a[0].(bool); return nil })
 	ext(p+"Concretize", func(fr *frame, a []value) value { return concretizeInt(a[0], "Concretize") })
 	ext(p+"IsSymbolicRun", func(fr *frame, a []value) value { return true })
@@ -845,6 +846,15 @@ func registerMisc() {
 	}
 	ext("github.com/coreos/etcd/raft.StartNode", raftStart("StartNode"))
 	ext("github.com/coreos/etcd/raft.RestartNode", raftStart("RestartNode"))
+
+	// gRPC: no network in the model; dialling fails (clients that harnesses need are
+	// harness implementations of the generated client interfaces)
+	ext("google.golang.org/grpc.Dial", func(fr *frame, a []value) value {
+		return tuple{(*value)(nil), mkErrorValue(fr.i, "grpc: dial unavailable in the model")}
+	})
+	ext("google.golang.org/grpc.DialContext", func(fr *frame, a []value) value {
+		return tuple{(*value)(nil), mkErrorValue(fr.i, "grpc: dial unavailable in the model")}
+	})
 
 	// uuid.NewV4: fresh, distinct from everything else on the path
 	newV4 := func(fr *frame, a []value) value {
